@@ -41,41 +41,68 @@ pub fn opt_lines(rng: &mut Rng, maxvars: usize, maxops: usize) -> Vec<String> {
     }
     for &pi in picks.iter() {
         let d = pool[pi];
-        // ---- marginal MAP / real branch and bound
-        let k = rng.below(std::cmp::min(n, 4) as u64 + 1) as usize;
-        let mut q = rng.perm(n);
-        q.truncate(k);
-        // weights in eighths: non-query normalised, query arbitrary in [0,1]
-        let w: Vec<(u64, u64)> = (0..n)
-            .map(|v| {
-                if q.contains(&v) {
-                    (rng.below(9), rng.below(9))
-                } else {
-                    let h = rng.below(9);
-                    (8 - h, h)
+        // ---- marginal MAP / real branch and bound: five query sets / weight profiles per diagram
+        for round in 0..5u64 {
+            let k = rng.below(std::cmp::min(n, 4) as u64 + 1) as usize;
+            let mut q = rng.perm(n);
+            q.truncate(k);
+            // weights in eighths: non-query normalised, query arbitrary in [0,1]
+            // weight profiles: mostly random; one case in two a profile with exact ties between the
+            // bounds of the two branches of a query variable (uniform 1/2, unit weights, symmetric
+            // query weights) — the situations in which pruning on "bound <= best" vs "<" and
+            // tie-breaking between branches matter
+            let profile = if round < 3 { round } else { 3 + rng.below(3) };
+            let w: Vec<(u64, u64)> = (0..n)
+                .map(|v| match profile {
+                    0 => (4, 4),
+                    1 => {
+                        // unit weights on the query variables only (the property's domain asks for
+                        // low + high = 1 on every non-query variable)
+                        if q.contains(&v) {
+                            (8, 8)
+                        } else {
+                            (4, 4)
+                        }
+                    }
+                    2 => {
+                        if q.contains(&v) {
+                            let k = rng.below(9);
+                            (k, k)
+                        } else {
+                            (4, 4)
+                        }
+                    }
+                    _ => {
+                        if q.contains(&v) {
+                            (rng.below(9), rng.below(9))
+                        } else {
+                            let h = rng.below(9);
+                            (8 - h, h)
+                        }
+                    }
+                })
+                .collect();
+            let head = format!(
+                "opt kind=map n={} order={} d={} q={} w={}",
+                n,
+                csv(&prog.order),
+                bdd_raw_string(d),
+                csv(&q),
+                w.iter().map(|(l, h)| format!("{}:{}", l, h)).collect::<Vec<_>>().join(",")
+            );
+            let r = guarded(|| {
+                let mut m = HashMap::new();
+                for (v, (l, h)) in w.iter().enumerate() {
+                    m.insert(VarLabel::new_usize(v), (RealSemiring(*l as f64 / 8.0), RealSemiring(*h as f64 / 8.0)));
                 }
-            })
-            .collect();
-        let head = format!(
-            "opt kind=map n={} order={} d={} q={} w={}",
-            n,
-            csv(&prog.order),
-            bdd_raw_string(d),
-            csv(&q),
-            w.iter().map(|(l, h)| format!("{}:{}", l, h)).collect::<Vec<_>>().join(",")
-        );
-        let r = guarded(|| {
-            let mut m = HashMap::new();
-            for (v, (l, h)) in w.iter().enumerate() {
-                m.insert(VarLabel::new_usize(v), (RealSemiring(*l as f64 / 8.0), RealSemiring(*h as f64 / 8.0)));
-            }
-            let params = WmcParams::new(m);
-            let vars: Vec<VarLabel> = q.iter().map(|&x| VarLabel::new_usize(x)).collect();
-            let (v1, m1) = d.marginal_map(&vars, n, &params);
-            let (v2, m2) = d.bb(&vars, n, &params);
-            format!("mm={}:{} bb={}:{}", f64_exact(v1), pm_str(&m1, n), f64_exact(v2.0), pm_str(&m2, n))
-        });
-        out.push(format!("{} => {}", head, r.unwrap_or_else(|e| e)));
+                let params = WmcParams::new(m);
+                let vars: Vec<VarLabel> = q.iter().map(|&x| VarLabel::new_usize(x)).collect();
+                let (v1, m1) = d.marginal_map(&vars, n, &params);
+                let (v2, m2) = d.bb(&vars, n, &params);
+                format!("mm={}:{} bb={}:{}", f64_exact(v1), pm_str(&m1, n), f64_exact(v2.0), pm_str(&m2, n))
+            });
+            out.push(format!("{} => {}", head, r.unwrap_or_else(|e| e)));
+        }
         // ---- MEU / expected-utility branch and bound: utility variables are the last
         // one or two variables of the order, decisions come from the earlier ones
         if n >= 3 {
